@@ -118,6 +118,10 @@ def check_linked_folder(run, case, emitted):
         run.ev('trainings_into_a_linked_rule_folder')
         if to:
             run.inconc('CLI training timed out'); return True
+        if rc != 0:
+            # trainer.py itself says that this training did not complete (it runs with its default maximum length, not the harness bound of the in-process
+            # training: a starved OMEN model can make it give up): nothing is claimed
+            run.ev('linked_folder_trainings_not_completed'); run.inconc('CLI training did not complete'); return True
         sn = session.new_session_name('c03lnk')
         gout, gerr, grc, gto = cli.run_cli('pcfg_guesser.py', ['-r', nm, '-s', sn, '--skip_brute'], stdin_mode='devnull', timeout=120, max_out=8 << 20)
         session.drop_session(sn)
